@@ -32,6 +32,84 @@ fn run<T: DeserializeOwned + Debug>(entry: Entry, bytes: &[u8], opts: &OptVec, s
 
 pub const MAX_EXHAUSTIVE: usize = 13;
 
+// ------------------------------------------------------------------------------------------------
+// Spanned targets: the value carries the line, column and character span of every node, which must
+// not depend on the entry point or on how the reader delivers the bytes (byte offsets are documented
+// as unavailable for reader input and are not compared).
+
+use serde_saphyr::Spanned;
+type SpVal = Spanned<serde_json::Value>;
+
+fn loc(l: &serde_saphyr::Location) -> String {
+    format!("{}:{}+{}/{}", l.line(), l.column(), l.span().offset(), l.span().len())
+}
+
+fn sp<T: Debug>(s: &Spanned<T>) -> String {
+    format!("{:?}@{}<-{}", s.value, loc(&s.referenced), loc(&s.defined))
+}
+
+trait SpShape: DeserializeOwned {
+    fn canon(&self) -> String;
+}
+impl SpShape for SpVal {
+    fn canon(&self) -> String {
+        sp(self)
+    }
+}
+impl SpShape for Vec<SpVal> {
+    fn canon(&self) -> String {
+        self.iter().map(sp).collect::<Vec<_>>().join(" | ")
+    }
+}
+impl SpShape for std::collections::BTreeMap<String, SpVal> {
+    fn canon(&self) -> String {
+        self.iter().map(|(k, v)| format!("{k}={}", sp(v))).collect::<Vec<_>>().join(" | ")
+    }
+}
+impl SpShape for std::collections::BTreeMap<String, Spanned<Vec<SpVal>>> {
+    fn canon(&self) -> String {
+        self.iter()
+            .map(|(k, v)| format!("{k}=[{}]@{}<-{}", v.value.iter().map(sp).collect::<Vec<_>>().join(", "), loc(&v.referenced), loc(&v.defined)))
+            .collect::<Vec<_>>()
+            .join(" | ")
+    }
+}
+
+/// (clause detail, schedule) for every entry point / schedule whose spanned value differs from from_str's
+fn spanned_disagreements<S: SpShape>(text: &str, opts: &OptVec, scheds: &[Chunking], st: &mut Stats) -> Vec<(String, Option<Chunking>)> {
+    let mut out = Vec::new();
+    let Ok(Ok(reference)) = guard(|| serde_saphyr::from_str_with_options::<S>(text, opts.to_options())) else {
+        return out;
+    };
+    let want = reference.canon();
+    st.bump("spanned.shapes_compared");
+    if let Ok(r) = guard(|| serde_saphyr::from_slice_with_options::<S>(text.as_bytes(), opts.to_options())) {
+        st.evals += 1;
+        let got = r.map(|v| v.canon()).map_err(|e| lab::err_info(&e).kind);
+        if got.as_ref() != Ok(&want) {
+            out.push((format!("from_slice gives {got:?}, from_str gives {want}"), None));
+        }
+    }
+    for ch in scheds {
+        let rd = SimReader::new(
+            text.as_bytes(),
+            ReaderScript {
+                chunking: Some(ch.clone()),
+                ..Default::default()
+            },
+        );
+        if let Ok(r) = guard(|| serde_saphyr::from_reader_with_options::<_, S>(rd, opts.to_options())) {
+            st.evals += 1;
+            let got = r.map(|v| v.canon()).map_err(|e| lab::err_info(&e).kind);
+            if got.as_ref() != Ok(&want) {
+                out.push((format!("from_reader under {} gives {got:?}, from_str gives {want}", describe(ch)), Some(ch.clone())));
+                break;
+            }
+        }
+    }
+    out
+}
+
 pub fn exec_agree(c: &AgreeCase, st: &mut Stats) -> Vec<Viol> {
     let mut out = Vec::new();
     let bytes = &c.doc.0;
@@ -171,6 +249,18 @@ pub fn exec_agree(c: &AgreeCase, st: &mut Stats) -> Vec<Viol> {
             }
         }
     };
+    // node locations of Spanned targets (a few shapes; the first schedules of the case)
+    if let Some(text) = c.doc.as_str() {
+        let few: Vec<Chunking> = scheds.iter().take(12).cloned().collect();
+        let mut found = Vec::new();
+        found.extend(spanned_disagreements::<SpVal>(text, &c.opts, &few, st));
+        found.extend(spanned_disagreements::<Vec<SpVal>>(text, &c.opts, &few, st));
+        found.extend(spanned_disagreements::<std::collections::BTreeMap<String, SpVal>>(text, &c.opts, &few, st));
+        found.extend(spanned_disagreements::<std::collections::BTreeMap<String, Spanned<Vec<SpVal>>>>(text, &c.opts, &few, st));
+        for (detail, ch) in found {
+            out.push(mk("spanned-locations-disagree", detail, ch));
+        }
+    }
     let boundaries = wl::boundary_offsets(bytes);
     for sch in &scheds {
         let script = ReaderScript {
